@@ -459,3 +459,81 @@ func VerifC08_Singletons() {
 	}
 	verifrt.Reached("end")
 }
+
+// Merging a token's policies keeps, for every (kind, name) that any policy gives a prefix rule for, one rule
+// with the strongest level - whatever else the same policy lists before or after it. (Three rules: one policy
+// with one rule, one with two; names from a three-letter alphabet including the empty prefix.)
+func VerifC08_MergeKeepsEveryRule() {
+	names := []string{"", "a", "b"}
+	levels := []string{PolicyRead, PolicyWrite, PolicyDeny}
+	kind := verifrt.Choice("kind", 5)
+	type rule struct{ name, level string }
+	mk := func(t string) rule {
+		return rule{names[verifrt.Choice(t+".name", 3)], levels[verifrt.Choice(t+".level", 3)]}
+	}
+	r0, r1, r2 := mk("p0.r0"), mk("p1.r0"), mk("p1.r1")
+	verifrt.Assume(r1.name != r2.name) // one document cannot hold two prefix rules for the same name
+	add := func(p *Policy, r rule) {
+		switch kind {
+		case 0:
+			p.SessionPrefixes = append(p.SessionPrefixes, &SessionRule{Node: r.name, Policy: r.level})
+		case 1:
+			p.NodePrefixes = append(p.NodePrefixes, &NodeRule{Name: r.name, Policy: r.level})
+		case 2:
+			p.AgentPrefixes = append(p.AgentPrefixes, &AgentRule{Node: r.name, Policy: r.level})
+		case 3:
+			p.EventPrefixes = append(p.EventPrefixes, &EventRule{Event: r.name, Policy: r.level})
+		case 4:
+			p.PreparedQueryPrefixes = append(p.PreparedQueryPrefixes, &PreparedQueryRule{Prefix: r.name, Policy: r.level})
+		}
+	}
+	p0, p1 := &Policy{}, &Policy{}
+	add(p0, r0)
+	add(p1, r1)
+	add(p1, r2)
+	order := []*Policy{p0, p1}
+	if verifrt.Bool("p1-first") {
+		order = []*Policy{p1, p0}
+	}
+	m := MergePolicies(order)
+	got := map[string]string{}
+	count := 0
+	switch kind {
+	case 0:
+		for _, x := range m.SessionPrefixes {
+			got[x.Node] = x.Policy
+			count++
+		}
+	case 1:
+		for _, x := range m.NodePrefixes {
+			got[x.Name] = x.Policy
+			count++
+		}
+	case 2:
+		for _, x := range m.AgentPrefixes {
+			got[x.Node] = x.Policy
+			count++
+		}
+	case 3:
+		for _, x := range m.EventPrefixes {
+			got[x.Event] = x.Policy
+			count++
+		}
+	case 4:
+		for _, x := range m.PreparedQueryPrefixes {
+			got[x.Prefix] = x.Policy
+			count++
+		}
+	}
+	want := map[string]string{}
+	for _, r := range []rule{r0, r1, r2} {
+		if vRank(r.level) > vRank(want[r.name]) {
+			want[r.name] = r.level
+		}
+	}
+	verifrt.Assert("C08.merge.one-rule-per-name", count == len(want))
+	for n, l := range want {
+		verifrt.Assert("C08.merge.strongest-level-kept-for-every-name", got[n] == l)
+	}
+	verifrt.Reached("end")
+}
